@@ -151,6 +151,8 @@ def generate(rng, tier='quick', stack=None, focus='general', **kw):
         svc['kind'] = rng.choice(['empty', 'empty', 'missing'])
     if stack == 'mux' and rng.random() < 0.3:
       svc['rctx'] = True
+    if stack == 'mux' and rng.random() < 0.15:
+      svc['tping'] = True          # the server pings the client (tag 1) before it answers
     if stack == 'mux' and cfg.get('adversarial') and rng.random() < 0.3:
       svc['adversarial'] = rng.choice(['duplicate', 'unknown_tag', 'reserved_tag', 'tag0', 'alias', 'alias'])
       svc['adv_tag'] = rng.choice([1, 1, 5, 300, 70000])
@@ -172,6 +174,9 @@ def generate(rng, tier='quick', stack=None, focus='general', **kw):
       op['badarg'] = True          # an argument the Thrift codec cannot serialise: fails before the wire
     elif rng.random() < 0.02 and scn['net']['chunk'] != 'bytes':
       op['payload'] = 'L' * rng.choice([5000, 9000])     # larger than one send() takes
+    elif rng.random() < 0.008 and scn['net']['chunk'] == 'none':
+      # a value of more than a mebibyte (request and reply)
+      op['payload'] = rng.choice(['H' * 1100000, 'é' * 600000])
     ops.append(op)
   scn['ops'] = ops
   end = t
@@ -527,6 +532,33 @@ def generate_c09(rng, tier='quick', stack=None, **kw):
     scn['horizon_extra'] = res['max_wait_interval'] + 6.0
     scn['c09'] = {'spacing': 1.0, 'last_heal': 0.0, 'end': t0 + 4.0}
     return scn
+  if rng.random() < 0.08:
+    # the client is closed (from the timeout of a call issued before the open
+    # completed) in the very instant in which the server set's listing returns
+    # to the balancer's open; the members' first connections then fail, so
+    # that anything left running shows as reconnection attempts
+    d = rng.choice([0.02, 0.05])
+    cfg.update({'open_timeout': 0, 'get_servers_delay': d, 'timeout': d})
+    scn['loop'] = {'batch_break': rng.choice([False, True, 0.1, 0.3, 0.3])}
+    ops = []
+    for i in range(rng.randint(0, 2)):
+      ops.append({'t': 0.0, 'op': 'call', 'id': 'c%d' % i, 'method': 'echo', 'payload': 'x',
+                  'timeout': rng.choice([d * 0.6, d]), 'svc': {'delay': 0.001}, 'via': 'dispatch'})
+    k = len(ops)
+    ops.append({'t': 0.0, 'op': 'call', 'id': 'c%d' % k, 'method': 'echo', 'payload': 'x', 'timeout': d,
+                'svc': {'delay': 0.001}, 'via': 'dispatch'})
+    scn['close_on'] = 'c%d' % k
+    scn['ops'] = ops
+    scn['faults'] = []
+    if rng.random() < 0.5:
+      for e_ in scn['eps']:
+        e_['mode'] = 'refuse'
+      scn['directives'] = []
+    else:
+      scn['directives'] = [{'ep': None, 'conn': 0, 'op': 'recv', 'index': None, 'nth': 1, 'kind': 'exc'}]
+    scn['horizon_extra'] = res['max_wait_interval'] + 6.0
+    scn['c09'] = {'spacing': 1.0, 'last_heal': 0.0, 'end': 1.0}
+    return scn
   if rng.random() < 0.1:
     # the endpoint is reachable all along, but the first connection to it dies
     # after the TCP connect, while the first answer (ThriftMux: the handshake
@@ -571,6 +603,10 @@ def generate_c09(rng, tier='quick', stack=None, **kw):
       scn['eps'][ep]['mode'] = 'refuse' if do != 'crash_blackhole' else 'blackhole'
     else:
       faults.append({'t': round(t, 3), 'do': do, 'ep': ep})
+      if do == 'refuse' and rng.random() < 0.6:
+        # ... and the process behind the connections that are still established
+        # hangs: requests on them time out, the reconnect that follows is refused
+        faults.append({'t': round(t, 3), 'do': 'mute', 'ep': ep})
     if do != 'reset':
       dur = rng.choice([0.5, 4.0, 15.0, 40.0, 90.0])
       faults.append({'t': round(t + dur, 3), 'do': 'restart', 'ep': ep})
